@@ -36,9 +36,10 @@ RULE_FUNCS = [
     (S.r_open_by_layer, ['R09.8']),
     (D.r_append, ['R02.4', 'R06.2']),
     (D.r_branch_on, ['R12.a', 'R12.b']),
-    (D.r_compile, ['R12.c', 'R12.d', 'R05.1', 'R01.6', 'R13.a', 'R06.3', 'R08.4']),
+    (D.r_compile, ['R12.c', 'R12.d', 'R05.1', 'R01.6', 'R13.a', 'R06.3', 'R08.4', 'R07.5']),
     (D.r_squash, ['R01.7', 'R07.1', 'R13.b', 'R12.e', 'R08.3', 'R08.2']),
     (D.r_restrict, ['R13.b', 'R07.4']),
+    (D.r_deleted_sites, ['R07.6']),
     (D.r_relax, ['R06.1', 'R12.e', 'R12.f', 'R13.b', 'R07.4']),
     (D.r_thresholds, ['R09.1', 'R09.2', 'R09.5']),
     (D.r_filters, ['R09.3', 'R09.4', 'R09.5', 'R10.6', 'R13.a']),
@@ -46,7 +47,7 @@ RULE_FUNCS = [
     (D.r_best_nodes, ['R02.5', 'R02.6']),
     (D.r_reset, ['R06.3', 'R02.5']),
     (D.r_flags, ['R06.4']),
-    (D.r_pooled_layers, ['R15.1', 'R15.2', 'R15.3']),
+    (D.r_pooled_layers, ['R15.1', 'R15.2', 'R15.3', 'R15.5']),
     (GR.r_gap, ['R17']),
     (VR.r_viz, ['R20.a', 'R20.b', 'R20.c', 'R20.d']),
     (WR.r_width_combinators, ['R13.c']),
@@ -100,25 +101,27 @@ def _c03_keep(r):
         return True
     if r['rule'].startswith(('R01.1', 'R01.2', 'R01.3', 'R01.4', 'R01.5', 'R02.1', 'R02.3', 'R09.7', 'R09.8')):
         return r['instance'].startswith('par/')          # solver-level rules: the parallel instances only
+    if 'threshold-order' in r['instance'] or 'threshold-no-manual' in r['instance']:
+        return False
     return not r['instance'].startswith('seq/')           # shared diagrams, stores and fringes
 
 
 PROPS = {
-    'C01': dict(fn=mk(['R01.', 'R07.1', 'R06.', 'R08.', 'R09.', 'R10.', 'R11.', 'R12.', 'R18.', 'R02.4', 'R02.5', 'R02.6'], lambda r: not r['instance'].startswith('par/')), explanation='prune polarity at the pop / enqueue / rough-bound sites, restricted->relaxed->enqueue protocol, Complete only on an empty fringe, exactness withdrawn on every path that squashes a layer'),
-    'C02': dict(fn=mk(['R02.', 'R12.a', 'R06.1', 'R06.2']), explanation='incumbent value and solution written together from the exact accessors of one diagram (one lock region in the parallel solver), improve-only guard, reported value = best_sol.map(|_| best_lb); longest-path max-update with witness edge; value and path read from one node; exact-best selection table'),
-    'C03': dict(witnesses=['W1', 'W2'], fn=mk(['R01.', 'R02.', 'R03.', 'R06.', 'R07.1', 'R08.', 'R09.', 'R10.', 'R11.', 'R12.', 'R18.'], _c03_keep), explanation='C01 clauses instantiated on ParallelSolver, lock regions (no re-entrant acquisition, one acquisition per check-then-act), pop-time discard polarity, cache mark guarded by must_explore'),
-    'C04': dict(fn=mk(['R04.']), explanation='checked premises P1-P8 of the deadlock-freedom argument (DESIGN.md C04): pairing of ongoing, release on every worker exit, wake-up not before the decrement, wait guards (path-consistent enumeration), completion guard, no re-entrant lock, vector length coupled to nb_threads, spawn range'),
-    'C05': dict(fn=mk(['R05.', 'R19.1', 'R19.2', 'R11.b']), explanation='cutoff => Err without finalisation; Err => abort_search on all paths; abort_proof set; completion unreachable after abort; bound stored at abort covers own node, in-flight nodes and fringe top; sequential best_ub written at pop only'),
-    'C06': dict(fn=mk(['R06.', 'R02.4', 'R02.6', 'R01.6', 'R01.7', 'R12.e']), explanation='arc redirection with relaxed cost, relaxed/deleted flags, exactness propagation, complete reset between compilations (field table from the ADT), flag bits and tables, rough-bound pruning direction, exactness withdrawn when squashing'),
-    'C07': dict(fn=mk(['R07.', 'R01.7', 'R02.4', 'R02.5', 'R13.a', 'R13.b', 'R06.3', 'R12.a']), explanation='restricted never merges, exact never squashes, truncation withdraws exactness and flags dropped nodes, squash order, value and path from one node through the best-edge chain, expanded vector is the squashed one'),
-    'C08': dict(fn=mk(['R08.', 'R01.4', 'R15.3', 'R12.e', 'R06.1', 'R06.2'], lambda r: r['rule'] != 'R12.e' or 'relax-' in r['instance'] or 'merge' in r['instance']), explanation='sub-problem fields from one exact, marked node; frontier/LEL admission; progress (first layer never squashed; root test for diagrams that keep nodes in the pool); ub term set; local-bound max-update; push unless ub <= best_lb'),
-    'C09': dict(fn=mk(['R09.', 'R18.']), explanation='who writes thresholds and when; explored flag; filter below the root only; filter polarity and theta inheritance; closed list of theta writes with their guards; cache entry fields; mark at pop; must_explore before compiling'),
-    'C10': dict(fn=mk(['R10.']), explanation='decision tables extracted by path enumeration with literal consistency: partial_cmp loop automaton (9 cases) and value stage (9 cases), cmp polarity, retain closure table, threshold terms, store keys, in-layer filtering protocol'),
+    'C01': dict(fn=mk(['R01.', 'R07.1', 'R07.5', 'R07.6', 'R15.5', 'R06.', 'R08.', 'R09.', 'R10.', 'R11.', 'R12.', 'R18.', 'R02.4', 'R02.5', 'R02.6'], lambda r: not r['instance'].startswith('par/') and 'threshold-order' not in r['instance'] and 'threshold-no-manual' not in r['instance']), explanation='prune polarity at the pop / enqueue / rough-bound sites, restricted->relaxed->enqueue protocol, Complete only on an empty fringe, exactness withdrawn on every path that squashes a layer'),
+    'C02': dict(fn=mk(['R02.', 'R12.a', 'R06.1', 'R06.2', 'R06.3', 'R11.d', 'R11.e']), explanation='incumbent value and solution written together from the exact accessors of one diagram (one lock region in the parallel solver), improve-only guard, reported value = best_sol.map(|_| best_lb); longest-path max-update with witness edge; value and path read from one node; exact-best selection table'),
+    'C03': dict(witnesses=['W1', 'W2'], fn=mk(['R01.', 'R02.', 'R03.', 'R06.', 'R07.1', 'R07.5', 'R07.6', 'R15.5', 'R08.', 'R09.', 'R10.', 'R11.', 'R12.', 'R18.'], _c03_keep), explanation='C01 clauses instantiated on ParallelSolver, lock regions (no re-entrant acquisition, one acquisition per check-then-act), pop-time discard polarity, cache mark guarded by must_explore'),
+    'C04': dict(fn=mk(['R04.', 'R11.c', 'R09.8'], lambda r: r['rule'].startswith(('R04', 'R11')) or r['instance'].startswith(('par/', 'clear-zeroes'))), explanation='checked premises P1-P8 of the deadlock-freedom argument (DESIGN.md C04): pairing of ongoing, release on every worker exit, wake-up not before the decrement, wait guards (path-consistent enumeration), completion guard, no re-entrant lock, vector length coupled to nb_threads, spawn range'),
+    'C05': dict(fn=mk(['R05.', 'R19.1', 'R19.2', 'R11.b', 'R11.e', 'R02.1', 'R02.5', 'R01.2', 'R01.3']), explanation='cutoff => Err without finalisation; Err => abort_search on all paths; abort_proof set; completion unreachable after abort; bound stored at abort covers own node, in-flight nodes and fringe top; sequential best_ub written at pop only'),
+    'C06': dict(fn=mk(['R06.', 'R02.4', 'R02.6', 'R01.6', 'R01.7', 'R12.e', 'R07.5']), explanation='arc redirection with relaxed cost, relaxed/deleted flags, exactness propagation, complete reset between compilations (field table from the ADT), flag bits and tables, rough-bound pruning direction, exactness withdrawn when squashing'),
+    'C07': dict(fn=mk(['R07.', 'R01.7', 'R02.4', 'R02.5', 'R02.6', 'R13.a', 'R13.b', 'R06.3', 'R12.a']), explanation='restricted never merges, exact never squashes, truncation withdraws exactness and flags dropped nodes, squash order, value and path from one node through the best-edge chain, expanded vector is the squashed one'),
+    'C08': dict(fn=mk(['R08.', 'R01.4', 'R15.3', 'R12.e', 'R12.d', 'R06.1', 'R06.2', 'R06.3', 'R02.6'], lambda r: r['rule'] != 'R12.e' or 'relax-' in r['instance'] or 'merge' in r['instance']), explanation='sub-problem fields from one exact, marked node; frontier/LEL admission; progress (first layer never squashed; root test for diagrams that keep nodes in the pool); ub term set; local-bound max-update; push unless ub <= best_lb'),
+    'C09': dict(fn=mk(['R09.', 'R18.', 'R03.pop', 'R07.5', 'R07.6', 'R15.5'], lambda r: 'threshold-order' not in r['instance'] and 'threshold-no-manual' not in r['instance']), explanation='who writes thresholds and when; explored flag; filter below the root only; filter polarity and theta inheritance; closed list of theta writes with their guards; cache entry fields; mark at pop; must_explore before compiling'),
+    'C10': dict(fn=mk(['R10.', 'R07.6', 'R15.5']), explanation='decision tables extracted by path enumeration with literal consistency: partial_cmp loop automaton (9 cases) and value stage (9 cases), cmp polarity, retain closure table, threshold terms, store keys, in-layer filtering protocol'),
     'C11': dict(fn=mk(['R11.']), explanation='SimpleFringe delegation to BinaryHeap with CompareSubProblem(MaxUB); MaxUB lexicographic order and operand order; NoDupFringe: len/is_empty/clear, pop/push pairing (slot recycled, key forgotten, position recorded), swaps update both tables, dedup key derived from state AND depth, merge table of the Occupied arm (9 cases), bubble-up decision on the merged candidate'),
     'C12': dict(fn=mk(['R12.', 'R15.2']), explanation='provenance (origin terms) of every argument of transition, transition_cost, relax, merge, for_each_in_domain, next_variable; who may call _branch_on; depth counter; merged slice has at least two members'),
     'C13': dict(fn=mk(['R13.']), explanation='squash executed on every expanded layer vector; symbolic length <= max_width at every exit of _restrict/_relax; width guards'),
     'C14': dict(fn=mk(['R14.', 'R01.1', 'R01.3', 'R01.4', 'R01.6', 'R09.4', 'R09.5', 'R02.1'], lambda r: r['rule'] != 'R02.1' or 'improve-only' in r['instance']), explanation='set_primal strictness table, both fields under one guard; no prune site (pop, enqueue, rough bound, cache filter) discards a node with ub > best_lb; incumbent replaced only on improvement'),
-    'C15': dict(fn=mk(['R15.', 'R08.', 'R12.', 'R06.1', 'R06.2', 'R06.3', 'R09.', 'R02.4', 'R02.5', 'R02.6', 'R13.a', 'R13.b', 'R01.6', 'R01.7'], lambda r: r['rule'].startswith('R15') or r['instance'].startswith('Pooled')), explanation='Pooled: un-impacted nodes are neither expanded nor removed from the pool; depth assigned when a node leaves the pool and at finalisation; a layer is recorded only when non-empty; progress rule (root never handed out) shared with C08; plus every diagram rule instantiated on Pooled (cut-set, local bounds, thresholds, callback protocol, reset, squash)'),
+    'C15': dict(fn=mk(['R15.', 'R07.5', 'R08.', 'R12.', 'R06.1', 'R06.2', 'R06.3', 'R09.', 'R02.4', 'R02.5', 'R02.6', 'R13.a', 'R13.b', 'R01.6', 'R01.7'], lambda r: r['rule'].startswith('R15') or r['instance'].startswith('Pooled')), explanation='Pooled: un-impacted nodes are neither expanded nor removed from the pool; depth assigned when a node leaves the pool and at finalisation; a layer is recorded only when non-empty; progress rule (root never handed out) shared with C08; plus every diagram rule instantiated on Pooled (cut-set, local bounds, thresholds, callback protocol, reset, squash)'),
     'C17': dict(fn=mk(['R17']), level='proof', explanation='abstract interpretation of the MIR of Solver::gap over a partition of all (lb <= ub) into sign/order cells; in each cell every comparison between the symbolic expressions (|lb|, |ub|, max, min, |ub-lb|) is decided, so all feasible paths are followed; obligations per cell: not NaN / no panic, >= 0, = 1 when a bound is infinite, = 0 iff lb = ub, <= 1 when the bounds have the same sign',
                 obligations=lambda results: len(results), checker_cmd='./check C17 quick',
                 trusted_base=['rustc MIR construction', 'engine/factsdrv', 'absint_gap.py transfer functions (int->float conversion is monotone, exact at 0 and keeps positive values positive and finite; x/y with 1 <= x, y <= 2^64 does not underflow; IEEE division)'],
